@@ -641,8 +641,9 @@ theorem finishBlock_bs_chan (h : Hdr) (convert : Bool) (st : St) (off buf1 : Lis
   split <;> exact ⟨rfl, rfl⟩
 
 theorem run_blockCmd {h : Hdr} {convert : Bool} {st : St} {ss : SSt} (hrel : Rel h st ss) (c : Cmd)
-    (hb : isBlock c = true) (hwf : blockWF h st.bs c) (r : List Bool) :
-    ∃ st', (blockCmd h convert (blockCode c) st).run uvarGet (blockBody c ++ r) = .ok (st', r) ∧
+    (hb : isBlock c = true) (hwf : blockWF h st.bs c) :
+    ∃ st', (∀ r : List Bool,
+        (blockCmd h convert (blockCode c) st).run uvarGet (blockBody c ++ r) = .ok (st', r)) ∧
       Rel h st' (semCmd h convert ss c) ∧ st'.bs = st.bs ∧ st'.chan = (st.chan + 1) % h.nchan := by
   have hc := hrel.chans st.chan hrel.chanlt
   have hcoff := coffset_rel hc st.shift
@@ -650,11 +651,12 @@ theorem run_blockCmd {h : Hdr} {convert : Bool} {st : St} {ss : SSt} (hrel : Rel
   cases c with
   | diff k resn res =>
     simp only [blockWF] at hwf
-    have hrun : (blockCmd h convert (blockCode (.diff k resn res)) st).run uvarGet
+    have hrun : ∀ r : List Bool, (blockCmd h convert (blockCode (.diff k resn res)) st).run uvarGet
         (blockBody (.diff k resn res) ++ r) = .ok (finishBlock h convert st (st.chans.getD st.chan default).off
           (setSlice (st.chans.getD st.chan default).buf 0 (runBlock (predDiff k
             (coffset h st.shift (st.chans.getD st.chan default).off)) res
             (slice (st.chans.getD st.chan default).buf 0 h.nwrap).reverse).reverse), r) := by
+      intro r
       simp only [blockCode, blockBody, List.append_assoc]
       apply run_blockCmd_nz _ _ _ _ _ (diffCode_ne_zero k)
       rw [← hwf]
@@ -669,11 +671,11 @@ theorem run_blockCmd {h : Hdr} {convert : Bool} {st : St} {ss : SSt} (hrel : Rel
   | qlpc resn coefs res =>
     simp only [blockWF] at hwf
     obtain ⟨hn, hl, hnw⟩ := hwf
-    have hrun := run_blockCmd_nz (h := h) (convert := convert) (st := st) FN_QLPC resn
+    have hrun := fun r : List Bool => run_blockCmd_nz (h := h) (convert := convert) (st := st) FN_QLPC resn
       (uvarPut LPCQSIZE coefs.length ++ coefs.flatMap (varPut LPCQUANT) ++ res.flatMap (varPut resn)) r _
       (by decide) (hl ▸ run_decodeBlock_qlpc h resn (coffset h st.shift (st.chans.getD st.chan default).off)
         coefs res (st.chans.getD st.chan default).buf r hn)
-    refine ⟨_, by simpa only [blockCode, blockBody, List.append_assoc] using hrun, ?_,
+    refine ⟨_, fun r => by simpa only [blockCode, blockBody, List.append_assoc] using hrun r, ?_,
       finishBlock_bs_chan _ _ _ _ _⟩
     simp only [semCmd]
     apply finish_rel hrel
@@ -683,7 +685,7 @@ theorem run_blockCmd {h : Hdr} {convert : Bool} {st : St} {ss : SSt} (hrel : Rel
       (Nat.le_trans hn (nwrap_ge h).2) (by omega)
     simpa [semHist, ← hrel.chan, ← hrel.shift] using this
   | zero =>
-    refine ⟨_, by simpa only [blockCode, blockBody, List.nil_append] using run_blockCmd_zero r, ?_,
+    refine ⟨_, fun r => by simpa only [blockCode, blockBody, List.nil_append] using run_blockCmd_zero r, ?_,
       finishBlock_bs_chan _ _ _ _ _⟩
     simp only [semCmd]
     apply finish_rel hrel
@@ -706,51 +708,57 @@ theorem blockCode_mem (c : Cmd) : BLOCK_CMDS.contains (blockCode c) = true ∧ b
     split <;> exact ⟨by decide, by decide⟩
   | _ => simp only [blockCode]; exact ⟨by decide, by decide⟩
 
-theorem run_loop {h : Hdr} {convert : Bool} (r : List Bool) (cmds : List Cmd) :
-    ∀ (fuel : Nat) (st : St) (ss : SSt), Rel h st ss → WFcmds h st.bs st.chan cmds → cmds.length < fuel →
-      (loop h convert fuel st).run uvarGet (cmds.flatMap encodeCmd ++ (uvarPut FNSIZE FN_QUIT ++ r))
-        = .ok ((cmds.foldl (semCmd h convert) ss).out, r) := by
-  induction cmds with
-  | nil =>
-    intro fuel st ss hrel _ hf
-    obtain ⟨f, rfl⟩ : ∃ f, fuel = f + 1 := ⟨fuel - 1, by simp at hf; omega⟩
-    simp only [List.flatMap_nil, List.nil_append, loop, List.foldl_nil]
-    rw [Prog.run_bind_ok uvarGet (run_uvar_put _ _ _)]
-    simp [hrel.out]
-  | cons c cs ih =>
-    intro fuel st ss hrel hwf hf
-    obtain ⟨f, rfl⟩ : ∃ f, fuel = f + 1 := ⟨fuel - 1, by simp at hf; omega⟩
-    have hf' : cs.length < f := by simp at hf; omega
-    simp only [List.flatMap_cons, List.foldl_cons, List.append_assoc]
-    by_cases hb : isBlock c = true
-    · -- a block command
-      have hwf' : blockWF h st.bs c ∧ WFcmds h st.bs ((st.chan + 1) % h.nchan) cs := by
-        cases c with
-        | diff k resn res => exact ⟨hwf.1, hwf.2⟩
-        | qlpc resn coefs res => exact ⟨⟨hwf.1, hwf.2.1, hwf.2.2.1⟩, hwf.2.2.2⟩
-        | zero => exact ⟨trivial, hwf⟩
-        | blocksize n => simp [isBlock] at hb
-        | bitshift n => simp [isBlock] at hb
-      obtain ⟨st', hrun, hrel', hbs', hchan'⟩ :=
-        run_blockCmd (convert := convert) hrel c hb hwf'.1
-          (cs.flatMap encodeCmd ++ (uvarPut FNSIZE FN_QUIT ++ r))
-      have hcode := blockCode_mem c
+theorem run_step_quit {h : Hdr} {convert : Bool} (st : St) (r : List Bool) :
+    (step h convert st).run uvarGet (uvarPut FNSIZE FN_QUIT ++ r) = .ok (.inr st.out, r) := by
+  unfold step
+  rw [Prog.run_bind_ok uvarGet (run_uvar_put _ _ _)]
+  simp
+
+/-- the state-independent part of `WFcmds` for one command -/
+def cmdWF (h : Hdr) (bs chan : Nat) : Cmd → Prop
+  | .blocksize n => chan = 0 ∧ 1 ≤ n ∧ n ≤ h.bs0
+  | .bitshift _ => True
+  | c => blockWF h bs c
+
+def nextBs (bs : Nat) : Cmd → Nat
+  | .blocksize n => n
+  | _ => bs
+
+def nextChan (h : Hdr) (chan : Nat) (c : Cmd) : Nat := if isBlock c then (chan + 1) % h.nchan else chan
+
+theorem WFcmds_cons (h : Hdr) (bs chan : Nat) (c : Cmd) (cs : List Cmd) :
+    WFcmds h bs chan (c :: cs) ↔ cmdWF h bs chan c ∧ WFcmds h (nextBs bs c) (nextChan h chan c) cs := by
+  cases c <;> simp [WFcmds, cmdWF, blockWF, nextBs, nextChan, isBlock, and_assoc]
+
+theorem run_step_cmd {h : Hdr} {convert : Bool} {st : St} {ss : SSt} (hrel : Rel h st ss) (c : Cmd)
+    (hwf : cmdWF h st.bs st.chan c) :
+    ∃ st', (∀ r : List Bool, (step h convert st).run uvarGet (encodeCmd c ++ r) = .ok (.inl st', r)) ∧
+      Rel h st' (semCmd h convert ss c) ∧ st'.bs = nextBs st.bs c ∧ st'.chan = nextChan h st.chan c := by
+  by_cases hb : isBlock c = true
+  · have hwf' : blockWF h st.bs c := by
+      cases c <;> simp_all [isBlock, cmdWF]
+    obtain ⟨st', hrun, hrel', hbs', hchan'⟩ := run_blockCmd (convert := convert) hrel c hb hwf'
+    have hcode := blockCode_mem c
+    refine ⟨st', ?_, hrel', ?_, ?_⟩
+    · intro r
       rw [encodeCmd_block c hb, List.append_assoc]
-      unfold loop
+      unfold step
       rw [Prog.run_bind_ok uvarGet (run_uvar_put _ _ _)]
       simp only [hcode.2, if_false, hcode.1, if_true]
-      rw [Prog.run_bind_ok uvarGet hrun]
-      apply ih f st' _ hrel' _ hf'
-      rw [hbs', hchan']
-      exact hwf'.2
-    · cases c with
-      | diff k resn res => simp [isBlock] at hb
-      | qlpc resn coefs res => simp [isBlock] at hb
-      | zero => simp [isBlock] at hb
-      | blocksize n =>
-        obtain ⟨hch, hn1, hn2, hrest⟩ := hwf
+      rw [Prog.run_bind_ok uvarGet (hrun r)]
+      rfl
+    · rw [hbs']; cases c <;> simp_all [isBlock, nextBs]
+    · rw [hchan']; simp [nextChan, hb]
+  · cases c with
+    | diff k resn res => simp [isBlock] at hb
+    | qlpc resn coefs res => simp [isBlock] at hb
+    | zero => simp [isBlock] at hb
+    | blocksize n =>
+      obtain ⟨hch, hn1, hn2⟩ := hwf
+      refine ⟨{ st with bs := n }, ?_, ?_, rfl, by simp [nextChan, isBlock]⟩
+      · intro r
         simp only [encodeCmd, List.append_assoc]
-        unfold loop
+        unfold step
         rw [Prog.run_bind_ok uvarGet (run_uvar_put _ _ _)]
         have e1 : ¬ (FN_BLOCKSIZE = FN_QUIT) := by decide
         have e2 : BLOCK_CMDS.contains FN_BLOCKSIZE = false := by decide
@@ -758,23 +766,164 @@ theorem run_loop {h : Hdr} {convert : Bool} (r : List Bool) (cmds : List Cmd) :
         rw [Prog.run_bind_ok uvarGet (run_ulong_put _ _)]
         have e3 : ¬ (n = 0 ∨ n > h.bs0) := by omega
         simp only [e3, if_false]
-        apply ih f { st with bs := n } _ _ hrest hf'
-        simp only [semCmd]
+        rfl
+      · simp only [semCmd]
         have hfr : ss.frame = [] := by rw [hrel.frame, hch]; rfl
         exact ⟨rfl, hrel.shift, hrel.chan, hrel.out, hrel.chanlt, hn2, hrel.len, hrel.slen, hrel.chans,
           by simp [hfr, hch]⟩
-      | bitshift n =>
+    | bitshift n =>
+      refine ⟨{ st with shift := n }, ?_, ?_, rfl, by simp [nextChan, isBlock]⟩
+      · intro r
         simp only [encodeCmd, List.append_assoc]
-        unfold loop
+        unfold step
         rw [Prog.run_bind_ok uvarGet (run_uvar_put _ _ _)]
         have e1 : ¬ (FN_BITSHIFT = FN_QUIT) := by decide
         have e2 : BLOCK_CMDS.contains FN_BITSHIFT = false := by decide
         have e3 : ¬ (FN_BITSHIFT = FN_BLOCKSIZE) := by decide
         simp only [e1, e2, e3, if_false, Bool.false_eq_true, if_true]
         rw [Prog.run_bind_ok uvarGet (run_uvar_put _ _ _)]
-        apply ih f { st with shift := n } _ _ hwf hf'
-        simp only [semCmd]
+        rfl
+      · simp only [semCmd]
         exact ⟨hrel.bs, rfl, hrel.chan, hrel.out, hrel.chanlt, hrel.bsle, hrel.len, hrel.slen, hrel.chans,
           hrel.frame⟩
+
+/-- the loop run over an encoded well-formed command list arrives, with the fuel that is left, in a
+    state related to the specification's state -/
+theorem run_loop_prefix {h : Hdr} {convert : Bool} (cmds : List Cmd) :
+    ∀ (fuel : Nat) (st : St) (ss : SSt), Rel h st ss → WFcmds h st.bs st.chan cmds →
+      ∃ st', Rel h st' (cmds.foldl (semCmd h convert) ss) ∧ ∀ rest : List Bool,
+        (loop h convert (fuel + cmds.length) st).run uvarGet (cmds.flatMap encodeCmd ++ rest)
+          = (loop h convert fuel st').run uvarGet rest := by
+  induction cmds with
+  | nil => intro fuel st ss hrel _; exact ⟨st, hrel, fun rest => rfl⟩
+  | cons c cs ih =>
+    intro fuel st ss hrel hwf
+    rw [WFcmds_cons] at hwf
+    obtain ⟨st1, hrun, hrel1, hbs1, hchan1⟩ := run_step_cmd (convert := convert) hrel c hwf.1
+    obtain ⟨st', hrel', hrest⟩ := ih fuel st1 _ hrel1 (by rw [hbs1, hchan1]; exact hwf.2)
+    refine ⟨st', hrel', ?_⟩
+    intro rest
+    simp only [List.flatMap_cons, List.length_cons, List.append_assoc]
+    rw [← Nat.add_assoc]
+    unfold loop
+    rw [Prog.run_bind_ok uvarGet (hrun _)]
+    exact hrest rest
+
+theorem run_loop {h : Hdr} {convert : Bool} (r : List Bool) (cmds : List Cmd)
+    (fuel : Nat) (st : St) (ss : SSt) (hrel : Rel h st ss) (hwf : WFcmds h st.bs st.chan cmds)
+    (hf : cmds.length < fuel) :
+    (loop h convert fuel st).run uvarGet (cmds.flatMap encodeCmd ++ (uvarPut FNSIZE FN_QUIT ++ r))
+      = .ok ((cmds.foldl (semCmd h convert) ss).out, r) := by
+  obtain ⟨st', hrel', hrest⟩ := run_loop_prefix (convert := convert) cmds (fuel - cmds.length) st ss hrel hwf
+  have e : fuel - cmds.length + cmds.length = fuel := by omega
+  rw [e] at hrest
+  rw [hrest]
+  obtain ⟨f, hfe⟩ : ∃ f, fuel - cmds.length = f + 1 := ⟨fuel - cmds.length - 1, by omega⟩
+  rw [hfe]
+  unfold loop
+  rw [Prog.run_bind_ok uvarGet (run_step_quit _ _)]
+  simp [hrel'.out]
+
+/-- an unknown function code after a well-formed prefix -/
+theorem run_loop_badcmd {h : Hdr} {convert : Bool} (r : List Bool) (cmds : List Cmd) (code : Nat)
+    (hcode : FN_ZERO < code)
+    (fuel : Nat) (st : St) (ss : SSt) (hrel : Rel h st ss) (hwf : WFcmds h st.bs st.chan cmds)
+    (hf : cmds.length < fuel) :
+    (loop h convert fuel st).run uvarGet (cmds.flatMap encodeCmd ++ (uvarPut FNSIZE code ++ r))
+      = .error (.io .badCmd) := by
+  obtain ⟨st', hrel', hrest⟩ := run_loop_prefix (convert := convert) cmds (fuel - cmds.length) st ss hrel hwf
+  have e : fuel - cmds.length + cmds.length = fuel := by omega
+  rw [e] at hrest
+  rw [hrest]
+  obtain ⟨f, hfe⟩ : ∃ f, fuel - cmds.length = f + 1 := ⟨fuel - cmds.length - 1, by omega⟩
+  rw [hfe]
+  unfold loop step
+  simp only [Prog.run_bind]
+  rw [run_uvar_put]
+  have h8 : 8 < code := hcode
+  have e1 : ¬ code = FN_QUIT := by simp only [FN_QUIT]; omega
+  have e2 : BLOCK_CMDS.contains code = false := by
+    simp only [BLOCK_CMDS, List.contains_cons, List.contains_nil, Bool.or_false, Bool.or_eq_false_iff, beq_eq_false_iff_ne]
+    omega
+  have e3 : ¬ code = FN_BLOCKSIZE := by simp only [FN_BLOCKSIZE]; omega
+  have e4 : ¬ code = FN_BITSHIFT := by simp only [FN_BITSHIFT]; omega
+  simp [e1, e2, e3, e4]
+
+/-! ## header and top level -/
+
+theorem rel_init (h : Hdr) (hn : 1 ≤ h.nchan) : Rel h (initSt h) (initS h) := by
+  refine ⟨rfl, rfl, rfl, rfl, hn, Nat.le_refl _, by simp [initSt], by simp [initS], ?_, by simp [initSt, initS]⟩
+  intro i hi
+  have e1 : (initSt h).chans.getD i default =
+      ⟨List.replicate (h.bs0 + h.nwrap) 0, List.replicate h.nblock h.meanInit⟩ := by
+    simp [initSt, List.getD_eq_getElem?_getD, hi]
+  have e2 : (initS h).chans.getD i default = ⟨[], []⟩ := by
+    simp [initS, List.getD_eq_getElem?_getD, hi]
+  rw [e1, e2]
+  refine ⟨by simp, ?_, ?_⟩
+  · simp [window, List.take_replicate]
+  · by_cases hm : h.nmean = 0
+    · simp [hm, Hdr.nblock]
+    · have : max 1 h.nmean = h.nmean := by omega
+      simp [hm, Hdr.nblock, this, List.take_replicate]
+
+theorem uvarPut_length_pos (k n : Nat) : 1 ≤ (uvarPut k n).length := by
+  simp only [uvarPut, List.length_append, List.length_replicate, List.length_cons]
+  generalize n >>> k = a
+  omega
+
+theorem encodeCmd_length_pos (c : Cmd) : 1 ≤ (encodeCmd c).length := by
+  cases c with
+  | diff k _ _ => have := uvarPut_length_pos FNSIZE (diffCode k); simp only [encodeCmd, List.length_append]; omega
+  | qlpc _ _ _ => have := uvarPut_length_pos FNSIZE FN_QLPC; simp only [encodeCmd, List.length_append]; omega
+  | zero => exact uvarPut_length_pos FNSIZE FN_ZERO
+  | blocksize _ => have := uvarPut_length_pos FNSIZE FN_BLOCKSIZE; simp only [encodeCmd, List.length_append]; omega
+  | bitshift _ => have := uvarPut_length_pos FNSIZE FN_BITSHIFT; simp only [encodeCmd, List.length_append]; omega
+
+theorem cmds_length_le (cmds : List Cmd) : cmds.length ≤ (cmds.flatMap encodeCmd).length := by
+  induction cmds with
+  | nil => simp
+  | cons c cs ih =>
+    have := encodeCmd_length_pos c
+    simp only [List.flatMap_cons, List.length_append, List.length_cons]; omega
+
+theorem run_mainProg (p : Program) (convert : Bool) (hwf : WF p) (fuel : Nat) (hf : p.cmds.length < fuel)
+    (r : List Bool) :
+    (mainProg p.hdr.version convert fuel).run uvarGet (encode p ++ r) = .ok (sem convert p, r) := by
+  obtain ⟨_, _, hft, hnc, hbs, hcmds⟩ := hwf
+  unfold mainProg encode
+  simp only [List.append_assoc]
+  rw [Prog.run_bind_ok uvarGet (run_ulong_put _ _)]
+  have e1 : ¬ (p.hdr.ftype ≥ FTYPE_LIMIT) := by omega
+  simp only [e1, if_false]
+  rw [Prog.run_bind_ok uvarGet (run_ulong_put _ _), Prog.run_bind_ok uvarGet (run_ulong_put _ _),
+    Prog.run_bind_ok uvarGet (run_ulong_put _ _), Prog.run_bind_ok uvarGet (run_ulong_put _ _),
+    Prog.run_bind_ok uvarGet (run_ulong_put _ _), Prog.run_bind_ok uvarGet (run_skipBytes _ _)]
+  have e2 : ¬ (p.hdr.nchan = 0 ∨ p.hdr.bs0 = 0) := by omega
+  simp only [e2, if_false]
+  exact run_loop r p.cmds fuel _ _ (rel_init p.hdr hnc) hcmds hf
+
+theorem versionOk_of_wf (v : Nat) (h1 : 1 ≤ v) (h2 : v ≤ 2) : versionOk (v : Int) = true := by
+  have : v = 1 ∨ v = 2 := by omega
+  rcases this with rfl | rfl <;> decide
+
+/-- decoding what `encode` wrote (followed by anything) gives what `sem` says -/
+theorem decodeBitsF_encode (p : Program) (convert : Bool) (hwf : WF p) (r : List Bool) (fuel : Nat)
+    (hf : p.cmds.length < fuel) :
+    decodeBitsF fuel (p.hdr.version : Int) convert (encode p ++ r) = .ok (sem convert p) := by
+  unfold decodeBitsF
+  rw [versionOk_of_wf _ hwf.1 hwf.2.1, if_pos rfl, Int.toNat_natCast, run_mainProg p convert hwf _ hf r]
+
+theorem encode_length_ge (p : Program) : p.cmds.length ≤ (encode p).length := by
+  have := cmds_length_le p.cmds
+  unfold encode
+  simp only [List.length_append]; omega
+
+theorem decodeBits_encode (p : Program) (convert : Bool) (hwf : WF p) (r : List Bool) :
+    decodeBits (p.hdr.version : Int) convert (encode p ++ r) = .ok (sem convert p) := by
+  unfold decodeBits
+  apply decodeBitsF_encode p convert hwf r
+  have := encode_length_ge p
+  simp only [List.length_append]; omega
 
 end PdsVerif.Model.Shorten
